@@ -53,6 +53,25 @@ pub fn check_annotated(text: &str, expected: Option<&M>, what: &str) {
                 None => {
                     count!("skeleton_preserved");
                     count!("nontrivial");
+                    // What `gram check` shows as the elaborated term is that term: read back, the printed
+                    // text is again the source program with holes filled in. (Text that does not read
+                    // back at all is C16's business and is only counted here.)
+                    let printed = acc.elab_real.to_string();
+                    crate::bind::with_front(&printed, &[], 2, |f| match f {
+                        crate::bind::Front::TypeErr { term, .. } | crate::bind::Front::Ok { term, .. } => {
+                            let back = crate::model::mterm::mirror(term);
+                            match sem::skeleton_mismatch_with(&acc.source, &back, true) {
+                                None => count!("printed_elaboration_reads_back"),
+                                Some(d) => violation(
+                                    "printed-elaboration-is-another-program",
+                                    text,
+                                    &format!("the printed elaborated term reads back as the source with holes filled in: {}", acc.source.show()),
+                                    &format!("{d}; printed: {printed}; read back: {}", back.show()),
+                                ),
+                            }
+                        }
+                        _ => count!("printed_elaboration_unreadable"),
+                    });
                 }
                 Some(d) => violation("elaboration-rewrites-program", text, &format!("the source with holes filled in: {}", acc.source.show()), &format!("{d}; elaborated: {}", acc.elab.show())),
             }
